@@ -61,7 +61,7 @@ class Sim(object):
         while self.events < self.max_events:
             if self.events in self.controls:
                 self._request(self.controls.pop(self.events))
-            self._poll()
+            offers = self._poll()
             st = s.status()
             if st == "paused" and self.auto_resume and self.pause_requested and not self.cancel_requested:
                 # the workflow has come to rest: resume (paused/pending tasks keep it paused otherwise)
@@ -70,9 +70,10 @@ class Sim(object):
                     self._request("resuming")
                     self.resumed += 1
                     self.pause_requested = False
-                    self._poll()
+                    offers = self._poll() or offers
             if not s.inflight:
-                idle += 1
+                # a poll whose offers completed on the spot (with-items over an empty list) is progress, not idleness
+                idle = 0 if offers else idle + 1
                 if idle >= 2 or s.status() in COMPLETED:
                     break
                 continue
@@ -119,9 +120,9 @@ class ChoiceSim(Sim):
         s.boot()
         idle = 0
         while self.events < self.max_events:
-            self._poll()
+            offers = self._poll()
             if not s.inflight:
-                idle += 1
+                idle = 0 if offers else idle + 1
                 if idle >= 2 or s.status() in COMPLETED:
                     break
                 continue
